@@ -1,18 +1,23 @@
 """C05 -- reported states are consistent with every conditional simple control (re-solve discipline, action plumbing, partial steps).
 
-The facts are decided on what the code computes, not on how it is spelled:
-* path obligations of run_sim are reachability questions on its CFG; the nodes that play a role (change test, flag that suppresses the
-  pre-solve phase, trial counter, time advance) are found by what they do, temporaries are followed through their single definition;
-* the behaviour of the small methods the statement rests on (ControlAction.__init__ / run_control_action / target, Subject.notify,
-  ControlChangeTracker.update, Rule.is_control_action_required / run_control_action, ValueCondition.evaluate / __new__, Comparison.parse,
-  Control.__init__ / update_condition / _conditional_control, TankLevelCondition.evaluate, the INP reader of a conditional control line)
-  is obtained by EVALUATING their bodies on a finite set of abstract inputs with a concrete interpreter with opaque objects (`_concrete`:
-  nothing of the repository is imported or run), and comparing what they do -- values returned, fields written, observers told, calls
-  made -- with what the statement needs; if/elif chains, early returns, lookup tables, conditional expressions, renamed or hoisted
-  locals, extracted helpers and merged loops are all alike to an evaluator;
-* what is stored / reported as junction pressure is compared as sympy expressions obtained by symbolic execution (sa/symx.py) with a
-  finite case split on the isolation flag; the remaining effect facts (reset of the reference point, the post-solve loop) are read off
-  the events of the symbolic execution, in which locals and hoisted sub-expressions disappear.
+Three kinds of deciding step are used (DESIGN 2b); which rule uses which is listed in EXPLANATION:
+* T1 structural (R-C05-1): path obligations of run_sim are reachability questions on its CFG (reach-avoiding / must-pass).  The nodes
+  that play a role (change test, flag that suppresses the pre-solve phase, trial counter, time advance) are located by AST shape
+  (`sim_time += ..` / `x = x + ..`, a counter increment, a boolean-constant flag store) and by the literal texts `self._change_tracker`
+  and `self._postsolve_controls.check()`; temporaries are followed through their single definition.  Two sub-facts of R-C05-1 (reset
+  of the 'graph' reference point, the post-solve loop) are read off the call events of a symbolic execution, no formula is compared;
+* T3 finite evaluation, bounded to the fixtures (R-C05-2, -3, -5, -6): the small methods the statement rests on (ControlAction.__init__ /
+  run_control_action / target, Subject.notify, ControlChangeTracker.update, Rule.is_control_action_required / run_control_action,
+  ValueCondition.evaluate / __new__, Comparison.parse, Control.__init__ / update_condition / _conditional_control,
+  TankLevelCondition.evaluate, the INP reader of a conditional control line) are EVALUATED by `_concrete` (a sa/peval Evaluator with
+  opaque objects; nothing of the repository is imported or run) on a handful of mock objects each, and what they do -- values
+  returned, fields written, observers told, calls made -- is compared with what the statement needs.  The mock objects carry
+  hard-coded private field names.  Not evaluated but matched: the Comparison member table (R-C05-3) is an AST/text comparison with the
+  spellings np.greater etc.; R-C05-6 falls back to an AST def-use walk when the method is not evaluable;
+* T3 (R-C05-4): the firing order is decided by c04.sort_order_rules, i.e. sa/concrete.py Interp running the scheduler and the two
+  runners on 13 stand-in scenarios against an oracle -- bounded to those scenarios;
+* T2 symbolic path enumeration (R-C05-7): what is stored / reported as junction pressure is compared as sympy expressions obtained by
+  sa/symx.py with a case split on the isolation flag; Node.pressure / Node.head returns are compared as event text.
 """
 import ast
 
@@ -28,16 +33,23 @@ IO = "wntr/epanet/io.py"
 BASE = "wntr/network/base.py"
 
 EXPLANATION = (
-    "Path rules on run_sim's CFG: results are saved, the accepted state stored and time advanced only on the path where no post-solve control "
-    "changed anything since the last solve; the other path updates the model and re-enters the solve with an incremented, bounded trial counter; "
-    "post-solve controls run after the solution was written into the network and before the change test. Plumbing facts: ControlAction maps "
-    "status/setting/leak_status to the run-time fields the status properties and the constraint builders read, executes setattr + notify, and "
-    "reports the public attribute to the change tracker, which compares the public property; ValueCondition evaluates the stored relation between "
-    "the current attribute value and the threshold; simple conditional controls built by the INP reader are ValueConditions on pressure / level "
-    "with ABOVE = greater, BELOW = less; tank-level controls are pre- and post-solve with a positive partial step (shared with C06). "
-    "Decides the loop discipline and plumbing, not the invariant over actual trajectories.")
-RULE_TEXT = "one instance = one path obligation or one plumbing fact (mapping entry, truth-table row)"
-ASSUMPTIONS = ["equal-priority conflicts between triggered controls are outside the statement's guarantee", "effective status = f(user, internal) is decided under C02 (R-C02-7)"]
+    "R-C05-1 (structural, T1: CFG reach-avoiding on run_sim, anchors located by AST shape and the texts self._change_tracker / "
+    "self._postsolve_controls.check(); two sub-facts read off symbolic call events): results are saved, the state accepted and time advanced only "
+    "where no post-solve control changed anything since the last solve; the other path updates the model, counts the trial, sets the skip flag and "
+    "re-solves. R-C05-2 (T3: the methods are evaluated by the in-house evaluator _concrete on a few mock objects, bounded to them): ControlAction maps "
+    "status/setting/leak_status to the run-time fields, does setattr + notify, reports the public attribute; the tracker compares the public value; a "
+    "rule is due iff its condition holds. R-C05-3 (T3 on 4 value pairs, 6 functions, 2 words x 2 node types; the Comparison member table is a text "
+    "match on np.greater etc.): ValueCondition.evaluate applies the stored relation to rounded value and threshold; INP ABOVE = greater, BELOW = less "
+    "on pressure / level. R-C05-4 (T3, delegated to c04: sa/concrete.py Interp on 13 scheduler scenarios against an oracle): triggered controls act in "
+    "firing-time order, ties by priority. R-C05-5 (T3, Control.__init__ evaluated for a fixed list of 8 condition classes): every method replacing the "
+    "condition leaves _control_type = f(condition). R-C05-6 (T3, 3 fixtures evaluated twice; AST def-use fallback): two evaluations of a "
+    "TankLevelCondition in one step report the same positive partial step. R-C05-7 (T2, symbolic path enumeration to sympy with a case split on "
+    "_is_isolated): the junction pressure stored for the conditions equals the one save_results reports. "
+    "Decides the loop discipline and plumbing on these fixtures, not the invariant over actual trajectories.")
+RULE_TEXT = "one instance = one path obligation or one plumbing fact (mapping entry, truth-table row, fixture outcome)"
+ASSUMPTIONS = ["equal-priority conflicts between triggered controls are outside the statement's guarantee", "effective status = f(user, internal) is decided under C02 (R-C02-7)",
+               "R-C05-2..-6 are finite evaluations: they decide the clause on the mock objects listed in the module (hard-coded private field names), not for every input",
+               "R-C05-4 is bounded to the 13 stand-in scheduler scenarios of c04.sort_order_rules"]
 
 
 # ====================================================================================================================
